@@ -741,3 +741,42 @@ pub fn brute_analysis(g: &RefGrammar, maxlen: usize) -> (Vec<bool>, Vec<TokSet>,
     }
     (nullable, first, follow)
 }
+
+/// Inputs derived from the sentences of `g`: every sentence of the start rule of length <= `maxlen`
+/// (the length bound is lowered until at most `cap` sentences remain), each of its prefixes, and
+/// each single-token substitution, deletion and insertion over `alpha`. Used for grammars whose
+/// alphabet is too large for "every string up to length n" to reach the interesting sentences.
+pub fn sentence_neighbourhood(g: &RefGrammar, alpha: &[usize], maxlen: usize, cap: usize) -> Vec<Vec<usize>> {
+    let mut len = maxlen;
+    let sents: Vec<Vec<usize>> = loop {
+        let l = bounded_languages(g, len);
+        if l[0].len() <= cap || len <= 1 {
+            break l[0].iter().map(|w| w.iter().map(|t| *t as usize).collect()).collect();
+        }
+        len -= 1;
+    };
+    let mut out: BTreeSet<Vec<usize>> = BTreeSet::new();
+    for s in &sents {
+        for k in 0..=s.len() {
+            out.insert(s[..k].to_vec());
+        }
+        for i in 0..s.len() {
+            let mut d = s.clone();
+            d.remove(i);
+            out.insert(d);
+            for &t in alpha {
+                let mut x = s.clone();
+                x[i] = t;
+                out.insert(x);
+            }
+        }
+        for i in 0..=s.len() {
+            for &t in alpha {
+                let mut x = s.clone();
+                x.insert(i, t);
+                out.insert(x);
+            }
+        }
+    }
+    out.into_iter().collect()
+}
